@@ -3602,7 +3602,7 @@ debug={debug},
             linespec_re = re.compile(linespec)
         elif exactmatch:
             # Return objects whose text attribute matches linespec exactly
-            linespec_re = re.compile("^%s$" % linespec)
+            linespec_re = re.compile("^(?:%s)$" % linespec)
 
         return list(
             filter(lambda obj: linespec_re.search(obj.text), self.config_objs),
